@@ -285,20 +285,20 @@ Qed.
 Lemma int_exact_lemma : forall f omin omax ostep ozmin ozmax ozstep s v zv,
   is_integer_fmt f = true ->
   orel omin ozmin -> orel omax ozmax -> orel ostep ozstep -> dec_is_Z v zv ->
-  check_convert f omin omax ostep s (RFin v) = Ok (VInt (spec_int ozmin ozmax ozstep zv)).
+  ideal_convert f omin omax ostep s (RFin v) = Ok (VInt (spec_int ozmin ozmax ozstep zv)).
 Proof.
   intros f omin omax ostep ozmin ozmax ozstep str v zv Hf Hmin Hmax Hstep Hv.
   assert (Hc := clamp_isZ omin omax ozmin ozmax v zv Hmin Hmax Hv).
-  assert (Hcc : check_convert f omin omax ostep str (RFin v) = convert_number f omin omax ostep (RFin v))
+  assert (Hcc : ideal_convert f omin omax ostep str (RFin v) = ideal_number f omin omax ostep (RFin v))
     by (destruct f; try discriminate; reflexivity).
-  rewrite Hcc. unfold convert_number, spec_int. rewrite Hf.
+  rewrite Hcc. unfold ideal_number, spec_int. rewrite Hf.
   set (c := clamp omin omax v) in *. set (zc := clampZ ozmin ozmax zv) in *.
   assert (Fin : forall d z, dec_is_Z d z -> dec_to_Z (to_integral HalfEven d) = z).
   { intros d z H. apply to_Z_of_isZ. apply to_integral_isZ. assumption. }
   destruct ostep as [st|], ozstep as [zs|]; simpl in Hstep; try contradiction.
   - rewrite (isZ_zero_coef st zs Hstep). destruct (zs =? 0) eqn:E.
     + simpl. rewrite (Fin c zc Hc). reflexivity.
-    + unfold snap. rewrite Hf.
+    + unfold ideal_snap. rewrite Hf.
       assert (Hoff : dec_is_Z (match omin with Some m => m | None => dzero end) (offZ ozmin)).
       { destruct omin, ozmin; simpl in Hmin; try contradiction; [assumption|apply dzero_isZ]. }
       rewrite (is_integral_isZ HalfUp c zc Hc), (is_integral_isZ HalfUp _ _ Hoff), (is_integral_isZ HalfUp st zs Hstep).
@@ -353,16 +353,16 @@ Proof.
 Qed.
 
 Lemma convert_total_lemma : forall f omin omax ostep s r,
-  (exists v, check_convert f omin omax ostep s r = Ok v) \/
-  check_convert f omin omax ostep s r = Err FormatError.
+  (exists v, ideal_convert f omin omax ostep s r = Ok v) \/
+  ideal_convert f omin omax ostep s r = Err FormatError.
 Proof.
   intros f omin omax ostep s r.
-  assert (N : (exists v, convert_number f omin omax ostep r = Ok v) \/
-              convert_number f omin omax ostep r = Err FormatError).
-  { unfold convert_number. destruct r as [v| |]; [|right; reflexivity..].
+  assert (N : (exists v, ideal_number f omin omax ostep r = Ok v) \/
+              ideal_number f omin omax ostep r = Err FormatError).
+  { unfold ideal_number. destruct r as [v| |]; [|right; reflexivity..].
     set (c := clamp omin omax v).
-    assert (S : forall st, (dcoef st =? 0)%N = false -> exists v3, snap f omin c st = Ok v3).
-    { intros st Hst. unfold snap.
+    assert (S : forall st, (dcoef st =? 0)%N = false -> exists v3, ideal_snap f omin c st = Ok v3).
+    { intros st Hst. unfold ideal_snap.
       destruct (is_integer_fmt f && is_integral HalfUp c && _ && is_integral HalfUp st); [eexists; reflexivity|].
       unfold snap_dec, ddiv. rewrite Hst.
       destruct (dcoef (dsub ctx6 c _) =? 0)%N; eexists; reflexivity. }
@@ -377,33 +377,33 @@ Qed.
 
 Lemma reject_lemma : forall f omin omax ostep s r,
   f <> FBool -> (r = RReject \/ r = RNonFinite) ->
-  check_convert f omin omax ostep s r = Err FormatError.
+  ideal_convert f omin omax ostep s r = Err FormatError.
 Proof.
   intros f omin omax ostep s r Hf Hr.
   destruct f; try congruence; destruct Hr as [-> | ->]; reflexivity.
 Qed.
 
 Lemma bool_lemma : forall omin omax ostep s r,
-  check_convert FBool omin omax ostep s r =
+  ideal_convert FBool omin omax ostep s r =
   match strtobool s with Some true => Ok (VInt 1) | Some false => Ok (VInt 0) | None => Err FormatError end.
 Proof. intros. simpl. destruct (strtobool s) as [[|]|]; reflexivity. Qed.
 
 Lemma int_is_int_lemma : forall f omin omax ostep s r v,
-  is_integer_fmt f = true -> check_convert f omin omax ostep s r = Ok v -> exists z, v = VInt z.
+  is_integer_fmt f = true -> ideal_convert f omin omax ostep s r = Ok v -> exists z, v = VInt z.
 Proof.
   intros f omin omax ostep s r v Hf H.
-  assert (Hcc : check_convert f omin omax ostep s r = convert_number f omin omax ostep r)
+  assert (Hcc : ideal_convert f omin omax ostep s r = ideal_number f omin omax ostep r)
     by (destruct f; try discriminate; reflexivity).
-  rewrite Hcc in H. unfold convert_number in H. destruct r; try discriminate.
+  rewrite Hcc in H. unfold ideal_number in H. destruct r; try discriminate.
   rewrite Hf in H.
   destruct (match ostep with Some s0 => _ | None => _ end); simpl in H; try discriminate.
   injection H as <-. eexists; reflexivity.
 Qed.
 
 Lemma float_is_dec_lemma : forall omin omax ostep s r v,
-  check_convert FFloat omin omax ostep s r = Ok v -> exists d, v = VDec d.
+  ideal_convert FFloat omin omax ostep s r = Ok v -> exists d, v = VDec d.
 Proof.
-  intros omin omax ostep s r v H. simpl in H. unfold convert_number in H. destruct r; try discriminate.
+  intros omin omax ostep s r v H. simpl in H. unfold ideal_number in H. destruct r; try discriminate.
   simpl in H. destruct (match ostep with Some s0 => _ | None => _ end); simpl in H; try discriminate.
   injection H as <-. eexists; reflexivity.
 Qed.
